@@ -12,6 +12,8 @@ def sig_of(row, why):
 
 
 def run(ctx):
+    if getattr(ctx, "replay", None):
+        return sc.replay_only(ctx, sig_of)
     t0 = time.time()
     def lap(what):
         ctx.note("%s: %.1fs" % (what, time.time() - t0))
@@ -111,7 +113,7 @@ def run(ctx):
         ctx.finding(sig_of(row, why), "%s: connection %d of history [%s] -> %s" % (
             why, row["k"], "; ".join("%s %s %s keys%d day%d" % (sc.spec_label(c["spec"]), c["name"], sc.srv_label(c["srv"]), c["srv"]["keys"], c["clock"]) for c in s["conns"]),
             sc.first_failure(row["ev"])),
-            {"scenario": {"sid": s["sid"], "conns": s["conns"]}, "why": why, "k": row["k"]})
+            {"scenario": s, "why": why, "k": row["k"]})
     cov = {"evaluations": n, "distinct_nontrivial": len(scns),
            "rule": "every history of 3 connections over one ClientSessionCache that Session_MC enumerates: parrots {ticket-only, PSK with/without OmitEmptyPsk, no session extension, TLS 1.2 EMS parrot, the same spec minus extended_master_secret, PSK without ticket extension, custom ticket-only without PreferSkip%s} x servers {TLS 1.2, TLS 1.3, TLS 1.3 + HelloRetryRequest} x ticket keys {1,2} x names {a,b} x clock {0, +8 days}; first connection name a/day 0/keys 1, third connection %s; each connection also runs against an empty cache (control); evaluations = connections judged, distinct = histories" % (
                ", more PSK/PQ/Firefox/360 parrots" if deep else "", "over the parrots/servers/names of the first two" if deep else "repeats the second or the first"),
